@@ -158,45 +158,68 @@ fn hands<const N: usize>(run: &mut Run, stratum: u64) -> PResult {
                     return Some(24);
                 }
             } else if N == 6 {
-                let mut h = Six::from([w[0], w[1], w[2], w[3], w[4], w[5]]);
-                if h.hand_rank_value() != exp {
-                    return Some(24);
-                }
-                for _ in 0..3 {
-                    h = h.shift_suit();
+                // ascending and descending slot order, each under the three non-trivial shifts
+                for rev in [false, true] {
+                    let mut a = [w[0], w[1], w[2], w[3], w[4], w[5]];
+                    if rev {
+                        a.reverse();
+                    }
+                    let mut h = Six::from(a);
                     if h.hand_rank_value() != exp {
-                        return Some(24);
+                        return Some(if rev { 25 } else { 24 });
+                    }
+                    for _ in 0..3 {
+                        h = h.shift_suit();
+                        if h.hand_rank_value() != exp {
+                            return Some(if rev { 25 } else { 24 });
+                        }
                     }
                 }
             } else {
-                let mut h = Seven::from([w[0], w[1], w[2], w[3], w[4], w[5], w[6]]);
-                if h.hand_rank_value() != exp {
-                    return Some(24);
-                }
-                for _ in 0..3 {
-                    h = h.shift_suit();
+                for rev in [false, true] {
+                    let mut a = [w[0], w[1], w[2], w[3], w[4], w[5], w[6]];
+                    if rev {
+                        a.reverse();
+                    }
+                    let mut h = Seven::from(a);
                     if h.hand_rank_value() != exp {
-                        return Some(24);
+                        return Some(if rev { 25 } else { 24 });
+                    }
+                    for _ in 0..3 {
+                        h = h.shift_suit();
+                        if h.hand_rank_value() != exp {
+                            return Some(if rev { 25 } else { 24 });
+                        }
                     }
                 }
             }
             None
         });
-        acc.evals += if N == 5 { 27 } else { 4 };
+        acc.evals += if N == 5 { 27 } else { 8 };
         match r {
             Ok(None) => true,
             Ok(Some(pi)) if pi < 24 => {
                 acc.fail = Some((w.to_vec(), Some(p4[pi])));
                 false
             }
+            Ok(Some(25)) => {
+                let mut wd = w.to_vec();
+                wd.reverse();
+                acc.fail = Some((wd, None));
+                false
+            }
             _ => {
-                acc.fail = Some((w.to_vec(), None));
+                // a shift failure or a panic: find the order that shows it
+                let mut wd = w.to_vec();
+                wd.reverse();
+                let bad = if invariance(&w, None).is_err() { w.to_vec() } else { wd };
+                acc.fail = Some((bad, None));
                 false
             }
         }
     });
     run.generator(
-        &format!("{}-card subsets{}: {}", N, if stratum > 1 { format!(" (seeded 1-in-{} stratum)", stratum) } else { String::new() }, if N == 5 { "all 24 suit relabellings + 1..3 container shifts" } else { "1..3 container shifts" }),
+        &format!("{}-card subsets{}: {}", N, if stratum > 1 { format!(" (seeded 1-in-{} stratum)", stratum) } else { String::new() }, if N == 5 { "all 24 suit relabellings + 1..3 container shifts" } else { "1..3 container shifts, ascending and descending slot order" }),
         if stratum > 1 { "exhaustive-stratum" } else { "exhaustive" },
         Some(choose(52, N as u64)),
         acc.n,
@@ -226,6 +249,7 @@ fn word_strategy() -> impl Strategy<Value = u32> {
         3 => Just(0u32),
         2 => any::<u32>(),
         1 => (0usize..52, 0u32..32).prop_map(|(i, b)| card::DECK[i] ^ (1 << b)),
+        1 => (0usize..52, 1u32..8).prop_map(|(i, m)| card::DECK[i] | (m << 29)),
     ]
 }
 
@@ -245,11 +269,11 @@ pub fn run(run: &mut Run) -> PResult {
     run.sample(json!({"card": "A♠", "shifted": card::render(card::DECK[0].shift_suit()), "four_shifts": card::render(card::DECK[0].shift_suit().shift_suit().shift_suit().shift_suit())}));
     hands::<5>(run, 1)?;
     hands::<6>(run, 1)?;
-    hands::<7>(run, if run.tier == Tier::Thorough { 1 } else { 8 })?;
+    hands::<7>(run, if run.tier == Tier::Thorough { 1 } else if run.is_twin() { 32 } else { 8 })?;
     // slot-wise
     {
         let st = engine::RStats::new();
-        let cases = if run.tier == Tier::Thorough { 8_000_000 } else { 1_000_000 };
+        let cases = (if run.tier == Tier::Thorough { 8_000_000 } else { 1_000_000 }) / if run.is_twin() { 4 } else { 1 };
         let make = || (2usize..=7).prop_flat_map(|n| proptest::collection::vec(word_strategy(), n));
         let res = pt::run_sharded(run.seed, 0xC08, cases, &make, &|ws: Vec<u32>| {
             let mut s = ws.clone();
